@@ -336,8 +336,10 @@ def formations_in_step(ctx):
                 "update_train_formation processes every moved non-depot node")
     o, fd = ctx.require_fn("R3.update-writes-formation-per-node", "T1", UTF, "each processed node's formation is replaced by the result of the vehicle replacement")
     if fd is not None:
-        ins = [c for c in fd.body.calls() if (c.callee or "").endswith("HashMap::insert") and len(c.args) == 3]
-        ok = any(slice_has_call_def(fd.slice_operand_pure(c, c.args[2]), S("vehicle_replacement_in_train_formation")) for c in ins)
+        ok = False
+        for f in hosts(ctx, UTF):      # the loop body may live in a private helper
+            ins = [c for c in f.body.calls() if (c.callee or "").endswith("HashMap::insert") and len(c.args) == 3]
+            ok = ok or any(slice_has_call_def(f.slice_operand_pure(c, c.args[2]), S("vehicle_replacement_in_train_formation")) for c in ins)
         ctx.decide(o, ok, "train_formations.insert(node, vehicle_replacement_in_train_formation(..))", "no such insert found")
 
 
